@@ -61,6 +61,12 @@ def accepts(ptype, cfg, v):
     if ptype == 'Parameter':
         return ACCEPT
 
+    if ptype == 'Choice':
+        # a user-defined type (see C11): one of the declared choices, compared without regard to case
+        if v is None:
+            return ACCEPT if allow_none else REJECT
+        return ACCEPT if isinstance(v, str) and v.casefold() in {c.casefold() for c in (cfg.get('choices') or ())} else REJECT
+
     if ptype in ('String', 'Bytes'):
         base = str if ptype == 'String' else bytes
         if v is None:
